@@ -164,7 +164,7 @@ class Renderer(object):
             return "(%s)(%s)" % (self.ex(x["f"]), ", ".join(self.ex(a) for a in x["args"]))
         if e == "print":
             return self.D["print"] + " << " + " << ".join(self.ex(a) for a in x["args"])
-        if e == "list" and len(x["args"]) == 1 and x["args"][0].get("e") in ("if", "seq") \
+        if e == "list" and len(x["args"]) == 1 and x["args"][0].get("e") in ("if", "seq", "mac") \
                 and not self.p.get("render_opts", {}).get("singleton_bracket"):
             # known finding C01 singleton-bracket: [ (if c then a else b) ] faults at run time
             return "cons(%s, (%s@%s))" % (self.ex(x["args"][0]), self.D["nil"], tname(x["t"]))
@@ -221,6 +221,14 @@ class Renderer(object):
             return "return %s" % self.ex(x["v"])
         if e == "yield":
             return "yield %s" % self.ex(x["v"])
+        if e == "dcall":
+            call = "%s(%s)" % (x["op"], ", ".join(self.ex(a) for a in x["args"]))
+            d = x["dom"]
+            if d["d"] == "self":
+                return call
+            return "(%s$%s)" % (call, self.domx(d))
+        if e == "mac":
+            return "%s(%s)" % (self.p["macs"][x["mi"] - 1]["name"], ", ".join(self.ex(a) for a in x["args"]))
         if e == "throw":
             return "throw %s" % x["exn"]
         if e == "try":
@@ -230,6 +238,36 @@ class Renderer(object):
         if e == "error":
             return "error %s" % esc(x.get("msg", "halt"))
         raise ValueError(e)
+
+    def domx(self, d):
+        if d["d"] == "base":
+            return self.p["doms"][d["i"] - 1]["name"]
+        if d["d"] == "app":
+            return "%s(%s)" % (self.p["doms"][d["i"] - 1]["name"], self.domx(d["arg"]))
+        if d["d"] == "param":
+            return "T"
+        raise ValueError(d)
+
+    def sig(self, o):
+        return "(%s) -> %s" % (", ".join(tname(t) for t in o["pts"]), tname(o["rt"]))
+
+    def opdef(self, o):
+        ps = ", ".join("%s: %s" % (self.nm(a), tname(t)) for a, t in zip(o["ps"], o["pts"]))
+        return "%s(%s): %s == %s" % (o["name"], ps, tname(o["rt"]), self.ex(o["body"]))
+
+    def domain_decls(self):
+        out = []
+        p = self.p
+        for c in p.get("cats", []):
+            sigs = "; ".join("%s: %s" % (o["name"], self.sig(o)) for o in c["ops"])
+            dfl = ""
+            if c["defaults"]:
+                dfl = "; default { %s }" % "; ".join(self.opdef(o) for o in c["defaults"])
+            out.append("define %s: Category == with { %s%s };" % (c["name"], sigs, dfl))
+        for d in p.get("doms", []):
+            head = d["name"] if not d["pcat"] else "%s(T: %s)" % (d["name"], p["cats"][d["pcat"] - 1]["name"])
+            out.append("%s: %s == add { %s };" % (head, p["cats"][d["cat"] - 1]["name"], "; ".join(self.opdef(o) for o in d["ops"])))
+        return out
 
     def seq_items(self, es):
         return "; ".join(self.ex(y) for y in es) if es else "()"
@@ -293,6 +331,9 @@ class Renderer(object):
         imports += ["R%d" % i for i in range(len(p.get("recs", [])))]
         imports += ["U%d" % i for i in range(len(p.get("uns", [])))]
         out.append("import from %s;" % ", ".join(imports))
+        for m in p.get("macs", []):
+            out.append("%s(%s) ==> %s;" % (m["name"], ", ".join(m["ps"]), self.ex(m["body"])))
+        out += self.domain_decls()
         for ex in p.get("exns", []):
             out.append("define %s: Category == %s;" % (ex, self.D.get("exn_cat", "Exception with")))
             out.append("define %s: %s@Category == add;" % (ex, ex))
